@@ -217,3 +217,133 @@ fn pair(t: &mut Tally, a: &str, builder_on: Option<&str>, b: &str, orbit: &[char
         }
     }
 }
+
+/// The iteration entry points under case-insensitivity, for every cased character: the regex is
+/// built in every way case-insensitivity can be switched on (inline flag, builder option, builder
+/// option on a spelling the VM runs), and on texts that contain the character and every member of
+/// its fold orbit the iteration entry points must tell one story: find_iter = the matches found by
+/// restarting find_from_pos, split / splitn = the gaps between them, replacen(0) = the gaps joined
+/// by the replacement. All builds must agree with each other as well.
+pub fn iter_sweep() -> Tally {
+    let orbits = orbits();
+    let tallies = par::run_workers(4, |_w, claimer| {
+        engine::quiet_panics();
+        engine::set_sweep_horizons(40_000, 5_000);
+        let mut t = Tally::new();
+        for (i, orbit) in orbits.iter().enumerate() {
+            if !claimer.is_mine(i) {
+                continue;
+            }
+            for &c in orbit {
+                let lit = regex::escape(&c.to_string());
+                let builds: Vec<(String, Result<fancy_regex::Regex, engine::CompileFail>)> = vec![
+                    (format!("(?i){}", lit), engine::compile(&format!("(?i){}", lit))),
+                    (format!("{} built with case_insensitive(true)", lit), engine::compile_with(&lit, |b| { b.case_insensitive(true); })),
+                    (format!("{}(?=) built with case_insensitive(true)", lit), engine::compile_with(&format!("{}(?=)", lit), |b| { b.case_insensitive(true); })),
+                    (format!("(?i)(?=){}", lit), engine::compile(&format!("(?i)(?=){}", lit))),
+                ];
+                let mut texts: Vec<String> = Vec::new();
+                for &d in orbit {
+                    texts.push(d.to_string());
+                    texts.push(format!("1{}2{}3", d, c));
+                }
+                for text in &texts {
+                    let mut first: Option<(String, Vec<(usize, usize)>)> = None;
+                    for (name, re) in &builds {
+                        let re = match re {
+                            Ok(r) => r,
+                            Err(_) => continue,
+                        };
+                        t.evaluations += 1;
+                        let mut viol = |t: &mut Tally, what: String| {
+                            t.violation(
+                                name.len() * 8 + text.len(),
+                                jobj! {"kind" => "casefold-iter", "pattern" => name.as_str(), "text" => text.as_str(), "pos" => 0usize, "observed" => what.as_str(),
+                                "summary" => format!("/{}/ on {:?} (U+{:04X}): {}", name, text, c as u32, what)},
+                            );
+                        };
+                        // the matches by restarting find_from_pos (one-character literal: never empty)
+                        let mut expect: Vec<(usize, usize)> = Vec::new();
+                        let mut pos = 0usize;
+                        let mut bad = false;
+                        while pos <= text.len() {
+                            match engine::find_at(re, text, pos) {
+                                Out::Match(g) => match g.first().copied().flatten() {
+                                    Some((s, e)) if e > s && s >= pos && e <= text.len() => {
+                                        expect.push((s, e));
+                                        pos = e;
+                                    }
+                                    other => {
+                                        viol(&mut t, format!("find_from_pos({}) = {:?}", pos, other));
+                                        bad = true;
+                                        break;
+                                    }
+                                },
+                                Out::NoMatch => break,
+                                _ => {
+                                    bad = true;
+                                    break;
+                                }
+                            }
+                        }
+                        if bad {
+                            continue;
+                        }
+                        if !expect.is_empty() {
+                            t.nontrivial += 1;
+                        }
+                        let fi = engine::find_iter_log(re, text);
+                        let got: Vec<(usize, usize)> = fi.items.iter().filter_map(|r| r.as_ref().ok().copied()).collect();
+                        if got != expect || fi.panic.is_some() || fi.items.iter().any(|r| r.is_err()) {
+                            viol(&mut t, format!("find_iter yields {:?}{} but restarting find_from_pos yields {:?}", fi.items, fi.panic.as_ref().map(|p| format!(" panic {}", p)).unwrap_or_default(), expect));
+                        }
+                        let mut gaps: Vec<(usize, usize)> = Vec::new();
+                        let mut last = 0usize;
+                        for &(s, e) in &expect {
+                            gaps.push((last, s));
+                            last = e;
+                        }
+                        gaps.push((last, text.len()));
+                        let sp = engine::split_log(re, text);
+                        let pieces: Vec<(usize, usize)> = sp.items.iter().filter_map(|r| r.as_ref().ok().copied()).collect();
+                        if pieces != gaps || sp.panic.is_some() {
+                            viol(&mut t, format!("split yields {:?} but the gaps between the matches {:?} are {:?}", sp.items, expect, gaps));
+                        }
+                        let sn = engine::splitn_log(re, text, 2);
+                        let want2: Vec<(usize, usize)> = if expect.is_empty() { vec![(0, text.len())] } else { vec![(0, expect[0].0), (expect[0].1, text.len())] };
+                        let pieces2: Vec<(usize, usize)> = sn.items.iter().filter_map(|r| r.as_ref().ok().copied()).collect();
+                        if pieces2 != want2 || sn.panic.is_some() {
+                            viol(&mut t, format!("splitn(2) yields {:?}, expected {:?}", sn.items, want2));
+                        }
+                        let want_rep: String = gaps.iter().map(|&(s, e)| &text[s..e]).collect::<Vec<_>>().join("<$>");
+                        match engine::replacen_str(re, text, 0, "<$$>") {
+                            Ok((s, _)) if s == want_rep => {}
+                            other => viol(&mut t, format!("replacen(0, \"<$$>\") = {:?}, expected {:?}", other, want_rep)),
+                        }
+                        match &first {
+                            None => first = Some((name.clone(), expect)),
+                            Some((n0, e0)) => {
+                                if *e0 != expect {
+                                    viol(&mut t, format!("matches {:?} but /{}/ matches {:?}", expect, n0, e0));
+                                }
+                            }
+                        }
+                    }
+                }
+                t.programs += builds.len() as u64;
+            }
+        }
+        t
+    });
+    Tally::merge_all(tallies)
+}
+
+pub fn describe_iter() -> String {
+    let o = orbits();
+    let n: usize = o.iter().map(|v| v.len()).sum();
+    format!(
+        "iteration under case-insensitivity: every Unicode scalar value with a non-trivial case mapping ({} characters in {} fold orbits) as a one-character pattern built four ways ((?i)c, c with RegexBuilder::case_insensitive(true), c(?=) with the option, (?i)(?=)c) on every member d of its orbit as the texts d and 1d2c3: find_iter = restarting find_from_pos, split and splitn(2) = the gaps between those matches, replacen(0) = the gaps joined by the replacement, and all four builds agree",
+        n,
+        o.len()
+    )
+}
